@@ -194,6 +194,26 @@ class C10:
             dm[st['col']][st['idx']] = pyobs.dec(st['value'])
             out['observed'] = 'written'
             return out
+        if op == 'use':
+            # other operations on the same table between two sorts; their results are discarded, the table must not
+            # be affected (the next sort is judged in full)
+            import random as _random
+            _random.seed(st.get('seed', 0))
+            how = st['how']
+            if how == 'shuffle_col':
+                ops.shuffle(dm[st['col']])
+            elif how == 'shuffle_dm':
+                ops.shuffle(dm)
+            elif how == 'sample':
+                ops.random_sample(dm, min(len(dm), 2))
+            elif how == 'select':
+                sel = dm[st['col']] != ''
+                if len(sel):
+                    dm[st['col']][sel]
+            elif how == 'sort_by_other':
+                ops.sort(dm, by=dm[st['col']])
+            out['observed'] = 'used:' + how
+            return out
         pre = snap(dm)
         ids, cols = pre
         colmap = {n: (k, r, v) for n, k, r, v in cols}
@@ -420,6 +440,26 @@ class C10:
             for b in range(1, n + 2):
                 if thorough or b in (1, 2, 3, n - 1, n, n + 1) or (n * 7 + b) % 3 == 0 or (n, b) == (15, 11):
                     cases.append(self.rerun(dict(inp, steps=[{'op': 'bin_split', 'col': 'a', 'bins': b}])))
+        # (d') sort, then other operations on the same table (column / table shuffles, samples, selections: position
+        #      caches get filled and Index copies get shuffled), then sort again; on fresh tables and on derived ones
+        #      (whose columns share the row-id Index of their table)
+        for kind in KINDS:
+            for _ in range(60 if thorough else 16):
+                n = rng.randint(3, 9)
+                inp = self.scenario(rng, kind, n, order_kind=rng.choice([0, 2, 3, 4]))
+                m = len(self.build(inp))
+                if m < 3:
+                    continue
+                judged = lambda: rng.choice([{'op': 'sort_dm', 'by': rng.choice(['a', 'o'])}, {'op': 'sort_col', 'obj': 'o', 'by': 'a'},
+                                             {'op': 'sort_col', 'obj': 'a'}, {'op': 'sort_dm', 'by': 'a'}])
+                steps = [judged()]
+                for _k in range(rng.randint(1, 3)):
+                    for _u in range(rng.randint(1, 3)):
+                        steps.append({'op': 'use', 'how': rng.choice(['shuffle_col', 'shuffle_col', 'shuffle_dm', 'sample',
+                                                                        'select', 'sort_by_other']),
+                                      'col': rng.choice(['a', 'o', 't']), 'seed': rng.randrange(1000)})
+                    steps.append(judged())
+                cases.append(self.rerun(dict(inp, steps=steps, tags=['history', 'reuse'])))
         # (d) histories on one table object
         for kind in KINDS:
             for _ in range(40 if thorough else 12):
